@@ -993,6 +993,28 @@ func runScenario(sc *scenario, scratch string) (*vtrace.Trace, error) {
 	}
 
 	// ----- what the same client did before (its caches and feature memos carry over)
+	// A copy made in this phase runs ungated and unobserved; should it never return (a hang of the code under
+	// test, outside these properties) the scenario is given up instead of blocking the driver for good.
+	priorHung := false
+	priorCopy := func(r *regclient.RegClient, tgt ref.Ref) {
+		pctx, pcancel := context.WithCancel(ctx)
+		defer pcancel()
+		fin := make(chan struct{})
+		go func() {
+			defer close(fin)
+			_ = r.ImageCopy(pctx, rSrc, tgt, opts...)
+		}()
+		select {
+		case <-fin:
+		case <-time.After(30 * time.Second):
+			priorHung = true
+			pcancel()
+			select {
+			case <-fin:
+			case <-time.After(5 * time.Second):
+			}
+		}
+	}
 	if (sc.Prior == "recopy" || sc.Prior == "recopy-other") && !w.sameRepo() {
 		// the same copy was made before; then content vanished from the target behind the client's back
 		c.mu.Lock()
@@ -1004,10 +1026,10 @@ func runScenario(sc *scenario, scratch string) (*vtrace.Trace, error) {
 		if sc.Prior == "recopy-other" {
 			// somebody else made the copy (and closed the target, as regctl does): the observed client is fresh
 			rc0 := newRC()
-			_ = rc0.ImageCopy(ctx, rSrc, rTgt, opts...)
+			priorCopy(rc0, rTgt)
 			_ = rc0.Close(ctx, rTgt)
 		} else {
-			_ = rc.ImageCopy(ctx, rSrc, rTgt, opts...)
+			priorCopy(rc, rTgt)
 			if sc.Seed%2 == 0 {
 				_ = rc.Close(ctx, rTgt)
 			}
@@ -1032,7 +1054,7 @@ func runScenario(sc *scenario, scratch string) (*vtrace.Trace, error) {
 				break // (the referrer target is observed from its initial state)
 			}
 			if rWarm, err := ref.New(w.tgtHost.Name + "/proj/warm:" + tgtTag); err == nil {
-				_ = rc.ImageCopy(ctx, rSrc, rWarm, opts...)
+				priorCopy(rc, rWarm)
 			}
 		case "reflist", "taglist", "head":
 			// listings and HEADs the same client made before (artifact list / tag ls / manifest head): with the
@@ -1084,6 +1106,12 @@ func runScenario(sc *scenario, scratch string) (*vtrace.Trace, error) {
 		rec.mu.Unlock()
 	}
 
+	if priorHung {
+		tr.Meta = map[string]any{"prior_hang": "the copy made before the observed one (prior = " + sc.Prior + ") did not return within 30 s"}
+		tr.Events = rec.events
+		cancel()
+		return tr, nil
+	}
 	snapEv(vtrace.Event{"ev": "init"})
 
 	done := make(chan struct{})
